@@ -228,6 +228,7 @@ pub struct Stats {
     pub skips: BTreeMap<String, u64>,
     pub known_hits: BTreeMap<String, u64>,
     pub samples: Vec<Value>,
+    pub skip_samples: Vec<Value>,
 }
 
 impl Stats {
@@ -248,6 +249,11 @@ impl Stats {
         for s in other.samples {
             if self.samples.len() < 6 {
                 self.samples.push(s);
+            }
+        }
+        for s in other.skip_samples {
+            if self.skip_samples.len() < 12 {
+                self.skip_samples.push(s);
             }
         }
     }
@@ -327,6 +333,9 @@ impl Ctx {
                 None
             }
             Verdict::Skip(r) => {
+                if stats.skips.get(&r).copied().unwrap_or(0) < 2 && stats.skip_samples.len() < 12 {
+                    stats.skip_samples.push(json!({"reason": r, "record": record()}));
+                }
                 stats.skip(&r);
                 None
             }
@@ -711,6 +720,7 @@ impl Ctx {
         coverage.insert("samples".into(), json!(self.stats.samples));
         coverage.insert("labels".into(), json!(self.stats.labels));
         coverage.insert("skipped".into(), json!(self.stats.skips));
+        coverage.insert("skipped_samples".into(), json!(self.stats.skip_samples));
         coverage.insert("known_finding_hits".into(), json!(self.stats.known_hits));
         coverage.insert("parts".into(), json!(self.parts));
         for (k, v) in &self.extra {
